@@ -32,7 +32,8 @@ def convert_case(draw):
     u = draw(G.expr_of_dim(dim))
     v = draw(G.expr_of_dim(dim))
     w = draw(G.expr_of_dim(dim))
-    return {"kind": "convert", "u": u, "v": v, "w": w, "x": draw(G.magnitudes())}
+    return {"kind": "convert", "u": u, "v": v, "w": w, "x": draw(G.magnitudes()),
+            "k": draw(st.sampled_from([None, 2.0, 10.0, 0.25]))}      # target given as the Quantity k*v
 
 
 RECIP_DIMS = [d for d in G.NONZERO_DIMS]
@@ -44,7 +45,7 @@ def recip_case(draw):
     u = draw(G.expr_of_dim(dim))
     v = draw(G.expr_of_dim(G.neg(dim)))
     x = draw(G.magnitudes().filter(lambda m: all(e != 0 for e in (m if isinstance(m, list) else [m]))))
-    return {"kind": "recip", "u": u, "v": v, "x": x}
+    return {"kind": "recip", "u": u, "v": v, "x": x, "k": draw(st.sampled_from([None, 2.0, 10.0, 0.25]))}
 
 
 @st.composite
@@ -67,6 +68,11 @@ def bare_refuse_case(draw):
 
 @st.composite
 def refuse_case(draw):
+    if draw(st.integers(0, 7)) == 0:
+        # a NAMED dimensionless unit (%, ppth, [pi] ...) is not a bare number: it does not convert to an angle
+        u = G.atom(*draw(st.sampled_from(G.NODIM_FACTOR)))
+        v = G.atom(*draw(st.sampled_from([a for a in G.GROUPS[G.RAD_DIM]])))
+        return {"kind": "refuse", "u": u, "v": v, "x": draw(G.magnitudes())}
     d1 = draw(st.sampled_from(G.DIMS))
     d2 = draw(st.sampled_from(G.DIMS).filter(lambda d: d != d1 and d != G.neg(d1)))
     u = draw(G.expr_of_dim(d1))
@@ -160,6 +166,13 @@ def check_convert(case, v):
     via = Quantity(x, tu).to(tw).to(tv)
     if not _close(via.value(), exp):
         return v.fail("via", f"Quantity({x!r},{tu!r}).to({tw!r}).to({tv!r}) = {via.value()!r}, direct {exp!r}")
+    k = case.get("k")
+    if k:
+        gq = Quantity(x, tu).to(Quantity(k, tv))
+        if not _close(gq.value(), exp / k):
+            return v.fail("to-quantity", f"Quantity({x!r},{tu!r}).to(Quantity({k},{tv!r})).value() = {gq.value()!r}, "
+                                         f"expected {exp / k!r}")
+        v.label("target_is_quantity")
     nz = bool(np.any(xa != 0))
     v.nt(tu != tv and fu != fv and nz)
     v.label("convert", "array" if isinstance(x, list) else "scalar")
@@ -195,6 +208,13 @@ def check_recip(case, v):
     back = q.to(tu)
     if not _close(_arr(back.value()), xa):
         return v.fail("recip-roundtrip", f"{tu}->{tv}->{tu}: {back.value()!r} != {case['x']!r}")
+    k = case.get("k")
+    if k:
+        gq = Quantity(case["x"], tu).to(Quantity(k, tv))
+        if not _close(gq.value(), exp / k):
+            return v.fail("to-quantity", f"Quantity({case['x']!r},{tu!r}).to(Quantity({k},{tv!r})).value() = "
+                                         f"{gq.value()!r}, expected {exp / k!r}")
+        v.label("target_is_quantity")
     v.nt(True)
     v.label("recip")
 
@@ -225,7 +245,8 @@ def check_refuse(case, v):
     tu, tv = R.render(u), R.render(vv)
     du = R.evaluate(u)[2]
     dv = R.evaluate(vv)[2]
-    if all(x == 0 for x in du) and dv == G.RAD_DIM:
+    named_nodim = u[0] == "u" and (u[1], u[2]) in set(G.NODIM_FACTOR)
+    if all(x == 0 for x in du) and dv == G.RAD_DIM and not named_nodim:
         return v.discard("number-to-rad-is-legal")
     if _factors(u, vv) is None:
         return v.discard("float-range")
